@@ -335,6 +335,21 @@ class Session(object):
         jres = {}
         for idx, v, m, backend, secs, log in out:
             jres[idx] = (v, m, backend, secs, log)
+        # patient second round: a query that every back end left open within
+        # the normal budgets (typically because all cores were busy) is tried
+        # again with generous ones, so that verdicts do not flip under load
+        needed = set()
+        for i, idxs in plan.items():
+            if obs[i].kind != 'cover':
+                needed.update(idxs)
+        again = [j for j in sorted(needed) if jres[j][0] == 'unknown']
+        if again and len(again) <= 200:
+            out2 = solver_mod.solve_all(
+                [(j, jobs[j][1], want_models, False, True) for j in again])
+            for idx, v, m, backend, secs, log in out2:
+                old = jres[idx]
+                jres[idx] = (v, m, backend, old[3] + secs,
+                             list(old[4]) + ['patient:'] + list(log))
         charged = set()
         verdicts = dict(pre)
         for i, idxs in plan.items():
